@@ -407,6 +407,7 @@ def run(prog: Program, tier: str) -> List[RuleResult]:
 
     # the caching iterator behind every variable domain: a value lost from the cache is a solution lost from every later evaluation
     from .c01 import ep_selected, cmp_apply, ep_operand
+    from .c01 import ep_thread as _ep_thread
     from .c12 import arg_symbolic
 
     # a row whose selected value is falsy is a solution like any other
@@ -416,4 +417,6 @@ def run(prog: Program, tier: str) -> List[RuleResult]:
             # comparisons are the other atoms: the verdict is the operator applied to the operand values of this assignment
             guard(lambda: cmp_apply(prog)),
             # an operand flagged false is dropped by the comparator: the flag must come from this evaluation, in condition position only
-            guard(lambda: ep_operand(prog)), guard(lambda: _hv_truth(prog)), guard(lambda: _qc_path(prog)), guard(lambda: node_flag(prog)), guard(lambda: _carry1(prog)), guard(lambda: _live_iter(prog)), guard(lambda: _iter_text(prog))]
+            guard(lambda: ep_operand(prog)), guard(lambda: _hv_truth(prog)), guard(lambda: _qc_path(prog)), guard(lambda: node_flag(prog)), guard(lambda: _carry1(prog)), guard(lambda: _live_iter(prog)), guard(lambda: _iter_text(prog)),
+            # sub-expressions that share a variable are evaluated for the same value of it: otherwise one assignment is reported several times
+            guard(lambda: _ep_thread(prog))]
